@@ -41,7 +41,7 @@ claim('C11',
       'Rc::get_mut; every peek()-guarded loop makes progress; Range::len is sign-symmetric as a symbolic linear form with clamped '
       'numerators and Range::empty compares in the direction of the step; infinite streams declare it and len maps that to inf; overriding len/peek/index methods read the cursor field '
       'next() advances on every result-producing path; Iterate yields the current element before stepping; Range::len(None end) decided by '
-      'evaluating the MIR on that abstract input.',
+      'evaluating the MIR on that abstract input; per stream type, peek has a length-versus-length exhaustion guard only if next has one.',
       'per-impl decision table from MIR return origins + CFG progress queries + symbolic linear forms')
 claim('C10',
       'Decides structural clauses, not the clamp arithmetic: every positional payload access in the read/write/remove/slice functions '
